@@ -740,3 +740,39 @@ def _():
     if got != want or tuple(it.ctm) != (2, 0, 0, 3, 4, 5) or it.gstack != [] or it.argstack != []:
         fails.append(dict(after_init_state=str(got), ctm=str(it.ctm)))
     return dict(cases=cases, failures=fails)
+
+
+# -- the operand stack and the small plumbing around it (execute() takes an operator's operands with pop(n): the last n pushed, oldest first) -----------------
+c = contract("pdfminer.pdfinterp:PDFPageInterpreter.pop", props=["C05", "C16"])
+c.param("self", T.Obj("pdfminer.pdfinterp:PDFPageInterpreter", argstack=T.Tup(T.Const("o1"), T.Const("o2"), T.Const("o3"), T.Const("o4"), as_list=True))).param("n", T.OneOf(0, 1, 2, 4, 6))
+c.skip_cross = True
+c.inline = True
+c.mod("self.argstack")
+c.returns(T.Opaque("operands"))
+c.ens("the-last-n-operands-oldest-first-removed-from-the-stack", lambda self, n, result: (
+    list(result) == ["o1", "o2", "o3", "o4"][4 - min(n, 4):] if n else list(result) == []) and list(self.argstack) == ["o1", "o2", "o3", "o4"][:4 - min(n, 4)])
+
+c = contract("pdfminer.pdfinterp:PDFPageInterpreter.push", props=["C05", "C16"])
+c.param("self", T.Obj("pdfminer.pdfinterp:PDFPageInterpreter", argstack=T.Tup(T.Const("o1"), as_list=True))).param("obj", T.Const("o2"))
+c.skip_cross = True
+c.inline = True
+c.mod("self.argstack")
+c.ens("appended-on-top", lambda self: list(self.argstack) == ["o1", "o2"])
+
+c = contract("pdfminer.pdfinterp:PDFResourceManager.__init__", props=["C12", "C05"])
+c.param("self", T.Obj("pdfminer.pdfinterp:PDFResourceManager")).param("caching", T.Bool())
+c.skip_cross = True
+c.inline = True
+c.mod("self.*")
+c.ens("caching-flag-stored-font-cache-empty-and-its-own", lambda self, caching: And(Iff(self.caching, caching), self._cached_fonts == {}))
+
+_itp_init = stub("pdfminer.pdfinterp:PDFPageInterpreter.__init__", ["self", "rsrcmgr", "device"])
+c = contract("pdfminer.pdfinterp:PDFPageInterpreter.dup", props=["C05", "C12"])
+c.param("self", T.Obj("pdfminer.pdfinterp:PDFPageInterpreter", rsrcmgr=T.Const("rm"), device=T.Const("dev")))
+c.skip_cross = True
+c.inline = True
+c.stubs = {"pdfminer.pdfinterp:PDFPageInterpreter.__init__": _itp_init}
+c.returns(T.Opaque("interpreter"))
+c.ens("a-new-interpreter-of-the-same-class-on-the-same-manager-and-device", lambda self, result, trace: (
+    len(trace) == 1 and trace[0][1]["rsrcmgr"] == "rm" and trace[0][1]["device"] == "dev" and result is not self
+    and isinstance(result, SObj) and result.cls is self.cls))
